@@ -65,6 +65,8 @@ THEOREMS = [
     "JanetModel.Props.C05.status_monotone_guarded",
     "JanetModel.Props.C05.guarded_is_unguarded_below",
     "JanetModel.Props.C05.guard_clobbers_status_in_old_order",
+    "JanetModel.Props.C05.macro_runs_exactly_once_guarded",
+    "JanetModel.Fiber.stepG_G",
     "JanetModel.Fiber.stepG_res",
     "JanetModel.Props.C05.dyn_visibility",
     "JanetModel.Props.C05.dyn_observes_nearest_binding",
@@ -586,8 +588,8 @@ def run(ctx, only=None):
         "constants / shape flags and by four trace correspondences (plain, lowered recursion guard with janet_vm.stackn, event-loop task, &named)",
         "not modelled: breakpoints / single-stepping; a recursion-guard trip INSIDE a suspended child chain (`unmodelled`, 0 trees in the thorough tier); what the event "
         "loop does with a task's result (supervisor channel, stack trace) and tasks that signal event / interrupt to the loop (skipped, counted)",
-        "whole-execution status monotonicity is proved for the guarded machine; the cleanup (`exactly once`) theorems are proved for the unguarded machine and for "
-        "event-loop schedules, and carry over to guarded executions only below the limit (`guarded_is_unguarded_below`)",
+        "whole-execution status monotonicity AND the cleanup (`exactly once`) theorems are proved for the guarded machine at any limit and (separately) for "
+        "event-loop schedules; not for the combination of both in one execution",
         "dynamic bindings: that a fiber's env index never changes once set is by inspection, not a whole-execution theorem (oracle R6 checks every dyn read)",
         "cleanup `exactly once` is about exits of the body fiber; a body suspended for ever has not exited; `Priv` (gensym privacy) is a hypothesis"])
 
